@@ -13,6 +13,7 @@ import (
 	"os"
 	"path/filepath"
 	"sort"
+	"strings"
 	"testing/iotest"
 	"time"
 
@@ -51,6 +52,7 @@ func init() {
 			"raw SNP report+certificate table, certificate table, raw TDX quote, their hex/base64 forms, TCG crypto-agile event logs with SP800-155 Event3 events of every locator type, the log's sub-structures, RIM locators. " +
 			"Operators: every (thorough) / 64 sampled (quick) truncation lengths; every declared length/count/offset/type field set to a boundary table; every-offset u8/u16/u32 boundary sweep of the small binary seeds; " +
 			"protobuf wire-level operators on every field (delete, duplicate, length prefix, wire type, field number, value, groups, deep nesting); re-signed golden-measurement variants with each optional sub-message removed or degenerate; " +
+			"directed RIM-locator shapes (empty, GUID only, GUID + terminator only, 16..21 bytes, odd lengths, terminator in the middle / missing, unpaired surrogates, path-like names, 0/1-byte URI and device-path locators, undefined locator types) handed to exel.Locate with every locator type and embedded with consistent length fields in an otherwise genuine SP800-155 payload, event data, event and event log; " +
 			"bit flips; stacked random edits; random bytes and patterns; textual re-encodings; inputs near 1 MiB. Monitor: core.Guard per call: panic, thread CPU > 2 s + 1 s/MiB, allocated bytes > 64 MiB + 4096*len(input); " +
 			"process-fatal failures (out of memory under ulimit -v 6 GiB, stack overflow) are attributed by the supervisor to the case logged before the call. " +
 			"non-trivial = a call on a non-genuine input that returned; distinct cells = (seed, operator class, entry point, returned ok|error)",
@@ -315,6 +317,12 @@ func (w *world) specs(c *core.Ctx) []spec {
 			add(spec{seed: -1, op: "golden", a: v, b: carrier, cross: true})
 		}
 	}
+	// directed locator shapes in every carrier
+	for v := range w.shapes {
+		for carrier := range locCarriers {
+			add(spec{seed: -1, op: "locshape", a: v, b: carrier})
+		}
+	}
 	for i, s := range w.seeds {
 		n := len(s.data)
 		// truncations
@@ -535,6 +543,13 @@ func (w *world) materialize(s spec, r *rand.Rand) (b []byte, gname, class, sname
 	case "pattern":
 		p := patterns[s.a]
 		return p.f(), "pattern/" + p.name, "pattern", "pattern", "none"
+	case "locshape":
+		b, gname, kind, _ := w.locShapeInput(s.a, s.b)
+		shape := w.shapes[s.a].name
+		if k := strings.IndexByte(shape, '/'); k > 0 {
+			shape = shape[:k]
+		}
+		return b, gname, "locator-shape", "locshape-" + shape + "-in-" + locCarriers[s.b].name, kind
 	case "big":
 		b, name, k := w.big(s.a)
 		return b, "big/" + name, "big", "big-" + name, k
@@ -692,6 +707,9 @@ func run(c *core.Ctx) {
 		e.locType = []uint32{0, 1, 2, 3, 3, 3, 4, 0xffffffff}[r.IntN(8)]
 		if s.seed >= 0 && w.seeds[s.seed].kind == "locator" && (genuine || r.IntN(5) != 0) {
 			e.locType = w.seeds[s.seed].loc
+		}
+		if s.op == "locshape" {
+			_, _, _, e.locType = w.locShapeInput(s.a, s.b)
 		}
 		if genuine { // the genuine calls are the ones that must succeed: fixed friendly parameters
 			e.vmsas, e.ram, e.forceFetch, e.manufacturer, e.overwrite, e.withBase, e.getterFails = 4, 16, false, gceManufacturer, false, false, true
